@@ -98,11 +98,12 @@ void GridFourier::updateGrid(int depth, TypeDepth type, const std::vector<int> &
     }else{
         clearRefinement();
 
-        updated_tensors = selectTensors((size_t) num_dimensions, depth, type, anisotropic_weights, level_limits);
+        MultiIndexSet proposed_tensors = selectTensors((size_t) num_dimensions, depth, type, anisotropic_weights, level_limits);
 
-        MultiIndexSet new_tensors = updated_tensors - tensors;
+        MultiIndexSet new_tensors = proposed_tensors - tensors;
 
-        if (!new_tensors.empty()){
+        if (!new_tensors.empty()){ // the updated tensors are stored only together with their active tensors and needed points
+            updated_tensors = std::move(proposed_tensors);
             updated_tensors += tensors;
             proposeUpdatedTensors();
         }
